@@ -314,6 +314,26 @@ for _pid, _expl in [
         'explanation': _expl,
     }
 
+# ---- Verus unit for the virtual sign (added late, DESIGN §9.11): the extracted step functions against the documented
+# machine over the FULL state (buffer contents and page lists of any length) - lifts the buffer-size bound of the Kani step proofs.
+VSIGN_VERUS_FNS = 'flipdot_testing::virtual_sign_bus::VirtualSign::{new, process_message, query_state, receive_config, send_data, data_chunks_sent, receive_pixels, pixels_complete, show_loaded_page, load_next_page, start_reset, finish_reset, goodbye, flush_pixels, reset} (Verus, extracted; rewrites listed per function in verus_units: logging macro calls replaced by (), match guards turned into if/else with a checked no-overlap condition, iter().map().sum() and the Option::filter closure given contracts); Page::from_bytes, SignType::from_bytes, SignType::dimensions, Data::get verified in the same file'
+A_VSIGN_VERUS = ('Verus unit vsign.rs.tmpl: assumed std contracts core::mem::take (returns the old value, leaves Default::default(); for Vec<u8> the empty vector), Option::filter (keeps the value iff the predicate returns true), '
+                 '<[u8]>::iter().map(u32::from).sum() == the sum of the bytes (stand-in sum_u8_as_u32), plus those of std_prelude.rs; the derive(PartialEq, Eq) of Address / Offset / ChunkCount / State / Operation / SignType / PageFlipStyle is taken to be structural equality (the extractor checks that the real types derive them); '
+                 'the documented machine `step` is a third transcription of the protocol description (A-transcription); the log macros are replaced by () (their arguments are not evaluated: A-log)')
+_VS_UNIT = {'tmpl': 'vsign.rs.tmpl', 'obligations': ['VirtualSign::process_message', 'VirtualSign::new', 'VirtualSign::query_state', 'VirtualSign::receive_config', 'VirtualSign::send_data', 'VirtualSign::data_chunks_sent', 'VirtualSign::receive_pixels', 'VirtualSign::pixels_complete', 'VirtualSign::show_loaded_page', 'VirtualSign::load_next_page', 'VirtualSign::start_reset', 'VirtualSign::finish_reset', 'VirtualSign::goodbye', 'VirtualSign::flush_pixels', 'VirtualSign::reset', 'Page::from_bytes', 'SignType::from_bytes', 'SignType::dimensions', 'Data::get', 'lemma_sum4']}
+PROPS['C12']['verus'] = [dict(_VS_UNIT)]
+PROPS['C12']['functions'] = [VSIGN_VERUS_FNS] + PROPS['C12']['functions']
+PROPS['C12']['assumptions'] = PROPS['C12']['assumptions'] + [A_VSIGN_VERUS, A_USIZE, A_COW, A_INTO,
+    'UNBOUNDED part (Verus): every step function, from ANY state with well-formed stored Page objects (rep(), established by new() and preserved by every step), with a pending buffer and a page list of ANY length and a data chunk of any length, returns normally - every arithmetic operation, index, slice and unwrap is a discharged obligation. The Kani step harness (buffer <= 400 bytes, <= 1 stored page) is kept: it executes the unmodified code, including the parts the extraction rewrites']
+PROPS['C13']['verus'] = [{'tmpl': 'vsign.rs.tmpl', 'obligations': _VS_UNIT['obligations'] + ['lemma_step_pages_complete', 'VirtualSign::lemma_rep_pages_complete']}]
+PROPS['C13']['functions'] = [VSIGN_VERUS_FNS] + PROPS['C13']['functions']
+PROPS['C13']['assumptions'] = PROPS['C13']['assumptions'] + [A_VSIGN_VERUS, A_USIZE, A_COW, A_INTO,
+    'UNBOUNDED part (Verus): (state after, reply) == step(state before, message) for the real process_message and each of its helpers, over the full abstract state (buffer CONTENTS, stored page images, any lengths); new() yields the blank state; step preserves "every stored image is a complete page of its size" (lemma_step_pages_complete) and the real representation invariant implies it (lemma_rep_pages_complete). Induction over the history is the usual argument (initial state + step), not a mechanised obligation']
+PROPS['C14']['verus'] = [{'tmpl': 'vsign.rs.tmpl', 'obligations': ['VirtualSign::process_message', 'lemma_c14_foreign_and_idle', 'VirtualSign::send_data', 'VirtualSign::data_chunks_sent']}]
+PROPS['C14']['functions'] = [VSIGN_VERUS_FNS] + PROPS['C14']['functions']
+PROPS['C14']['assumptions'] = PROPS['C14']['assumptions'] + [A_VSIGN_VERUS,
+    'sign level, UNBOUNDED (Verus): process_message == step, and lemma_c14_foreign_and_idle: a message addressed elsewhere, a report / acknowledgement / unknown frame, or an unaddressed data message arriving at a sign that is not receiving leaves the full state unchanged and gets no reply; a reply carries the sign\'s own address. The bus loop itself (VirtualSignBus::process_message: first reply wins) stays a Kani obligation over 1..4 signs']
+
 A_STDIO = ('A-std-io: ASSUMED contracts of the std::io items Frame::read / Frame::write call (contracts/io_standins.rs): Write::write_all(buf) appends exactly buf to what the sink '
            'received or fails having delivered a proper prefix (short writes and Interrupted are retried inside it); BufReader::with_capacity(1, r).read_until(LF, v) consumes from r '
            'exactly the first line and appends it to v, however r fragments its reads and however often it reports Interrupted, and with any other capacity may consume more; '
@@ -369,7 +389,9 @@ PROPS['C16']['tools'] = [{'kind': 'witness', 'domains': ['serial'], 'bound': '2 
 PROPS['C18']['tools'] = PROPS['C16']['tools']
 PROPS['C17']['tools'] = [{'kind': 'witness', 'domains': ['bridge', 'serial-path'], 'bound': 'bridge: 40 conversations of 12 protocol messages interleaved with undecodable / unknown lines, bridge vs direct bus after every line; serial path: configure, send_pages, show, load-next, shut-down, reconfigure over controller -> serial bus -> byte stream -> bridge -> virtual bus vs the same operations directly on a virtual bus, 2 sign types x 2 flip styles'}]
 
-PROPS['C19']['verus'] = [{'tmpl': 'sign_type.rs.tmpl', 'obligations': ['SignType::from_bytes']}]
+PROPS['C19']['verus'] = [{'tmpl': 'sign_type.rs.tmpl', 'obligations': ['SignType::from_bytes', 'SignType::dimensions']},
+                         # what a virtual sign derives from a block: width / height / type exactly as cfg_of says (send_data == step_data)
+                         {'tmpl': 'vsign.rs.tmpl', 'obligations': ['VirtualSign::send_data', 'lemma_sum4']}]
 PROPS['C19']['functions'].append('flipdot_core::sign_type::SignType::from_bytes (Verus, extracted verbatim: every byte string of EVERY length)')
 PROPS['C19']['assumptions'] += [A_USIZE, 'the Vec<u8> stored in UnknownConfig { bytes } is not constrained by the contract (Vec<u8>: From<&[u8]> has no specification); the property does not speak about it']
 PROPS['C19']['explanation'] = 'All 11 variants by Kani (block length 16, round trip, fields agree with dimensions(), (family,id) unique, virtual-sign derivation from any prior dimensions); decoding of byte strings of EVERY length by Verus on the extracted from_bytes (rejects every length other than 16 with the exact counts; accepts exactly the supported (family, id) pairs whatever the other 14 bytes are), cross-checked by Kani for lengths 0..=64.'
